@@ -106,6 +106,17 @@ func c06Guard(f func() error) (err error) {
 	return err
 }
 
+// c06Up adds the section's primary-key base to a value handed to SetCache (row id / index entry).
+func c06Up(v any, b int) any {
+	switch x := v.(type) {
+	case c06Row:
+		return c06Row{x.Id + b, x.V, x.A}
+	case int:
+		return x + b
+	}
+	return v
+}
+
 func c06Val(tok string) (any, string) {
 	// returns the Go value to hand to SetCache and the raw string for `raw`
 	switch {
@@ -285,7 +296,65 @@ func TestVerifC06(t *testing.T) {
 		rows := map[int]c06Row{}
 		idx := map[int]int{}
 		queries := 0
-		keyer := func(primary any) string { return key(fmt.Sprintf("p%v", primary)) }
+		// `pkbase=<B>`: the VALUE domain — the primary key the database reports for token p<k> is B+k (B = 0, 10^6, 2^53+1, …):
+		// the index entry holds that number, QueryRowIndex decodes it into an `any` and builds the primary cache key from
+		// it with the caller's keyer (goctl's keyers format it with %v). The keyer below is such a keyer; it also records
+		// HOW the number arrived (dynamic type and %v text): the same on every decode path of doTake — from the leader's
+		// own query (int), from a cache hit and from a shared flight (json.Number: jsonx decodes with UseNumber).
+		pkB := int(verifh.Atoi64(cfg.Str("pkbase", "0")))
+		var kmu sync.Mutex
+		badPK := ""
+		pkOf := func(primary any) (int, string) {
+			switch p := primary.(type) {
+			case int:
+				return p - pkB, ""
+			case json.Number:
+				if n, err := p.Int64(); err == nil && p.String() == strconv.FormatInt(n, 10) {
+					return int(n) - pkB, ""
+				}
+				return 0, "json.Number_" + p.String()
+			}
+			return 0, fmt.Sprintf("%T_%v", primary, primary)
+		}
+		keyer := func(primary any) string {
+			kmu.Lock()
+			defer kmu.Unlock()
+			pk, bad := pkOf(primary)
+			if bad == "" && fmt.Sprintf("%v", primary) != strconv.Itoa(pk+pkB) {
+				bad = fmt.Sprintf("%T_%v", primary, primary)
+			}
+			if bad != "" || pk < 0 || pk > 7 {
+				if bad == "" {
+					bad = fmt.Sprintf("%T_%v", primary, primary)
+				}
+				badPK = bad
+				return "verif-bogus-primary-key:" + fmt.Sprintf("%v", primary)
+			}
+			return key(fmt.Sprintf("p%d", pk))
+		}
+		// the dump with the database's numbers mapped back to the tokens' (B subtracted)
+		rawDump := dump
+		dump = func() string {
+			d := rawDump()
+			if pkB == 0 {
+				return d
+			}
+			f := strings.Fields(d)
+			for i, e := range f {
+				eq, at := strings.Index(e, "="), strings.LastIndex(e, "@")
+				if eq < 0 || at < eq {
+					continue
+				}
+				v := strings.Split(e[eq+1:at], ":")
+				if (v[0] == "r" && len(v) == 4) || (v[0] == "k" && len(v) == 2) {
+					if n, err := strconv.Atoi(v[1]); err == nil && n >= pkB {
+						v[1] = strconv.Itoa(n - pkB)
+						f[i] = e[:eq+1] + strings.Join(v, ":") + e[at:]
+					}
+				}
+			}
+			return strings.Join(f, " ")
+		}
 
 		// the result token of a read, cross-checked with Cache.IsNotFound (the cache was built with sql.ErrNoRows
 		// as its errNotFound): IsNotFound(err) must hold exactly for the not-found result
@@ -324,7 +393,7 @@ func TestVerifC06(t *testing.T) {
 			res := ""
 			how := "order"
 			var cc CachedConn
-			if op[0] != "ctake" && op[0] != "cmix" {
+			if op[0] != "ctake" && op[0] != "cmix" && op[0] != "cqindex" {
 				cc = ccs[cache.VerifC06InstOf(op, len(ccs))]
 			}
 			switch op[0] {
@@ -344,7 +413,7 @@ func TestVerifC06(t *testing.T) {
 					if !ok {
 						return notFound
 					}
-					*v.(*c06Row) = r
+					*v.(*c06Row) = c06Row{r.Id + pkB, r.V, r.A}
 					return nil
 				}
 				var err error
@@ -357,7 +426,7 @@ func TestVerifC06(t *testing.T) {
 				}
 				res = isNF(c06Err(err), err)
 				if err == nil {
-					res = fmt.Sprintf("val:r:%d:%d:%d", v.Id, v.V, v.A)
+					res = fmt.Sprintf("val:r:%d:%d:%d", v.Id-pkB, v.V, v.A)
 				}
 			case "ctake":
 				// concurrent readers of one key: the load runs inside the shared SingleFlight, so at most one
@@ -448,12 +517,12 @@ func TestVerifC06(t *testing.T) {
 							if !ok {
 								return notFound
 							}
-							*v.(*c06Row) = r
+							*v.(*c06Row) = c06Row{r.Id + pkB, r.V, r.A}
 							return nil
 						})
 						r := isNF(c06Err(err), err)
 						if err == nil {
-							r = fmt.Sprintf("val:r:%d:%d:%d", v.Id, v.V, v.A)
+							r = fmt.Sprintf("val:r:%d:%d:%d", v.Id-pkB, v.V, v.A)
 						}
 						results[i] = r
 					}(i)
@@ -555,7 +624,7 @@ func TestVerifC06(t *testing.T) {
 						} else if !ok {
 							res, ret = "notfound", notFound
 						} else {
-							*v.(*c06Row) = r
+							*v.(*c06Row) = c06Row{r.Id + pkB, r.V, r.A}
 							res = fmt.Sprintf("val:r:%d:%d:%d", r.Id, r.V, r.A)
 						}
 						mu.Lock()
@@ -569,7 +638,7 @@ func TestVerifC06(t *testing.T) {
 					})
 					r := isNF(c06Err(err), err)
 					if err == nil {
-						r = fmt.Sprintf("val:r:%d:%d:%d", v.Id, v.V, v.A)
+						r = fmt.Sprintf("val:r:%d:%d:%d", v.Id-pkB, v.V, v.A)
 					}
 					reads[slot] += r
 				}
@@ -641,6 +710,136 @@ func TestVerifC06(t *testing.T) {
 				mu.Unlock()
 				cleaner.Sync()
 				return out + " | " + dump()
+			case "cqindex":
+				// concurrent readers of one INDEX key through QueryRowIndexCtx (two steps: the index entry decoded into an
+				// `any`, then the primary key's entry): the followers of the index flight decode the shared value, late
+				// readers hit the cache, the leader has the number from its own query — all must derive the same primary key
+				a := verifh.Atoi(op[1][1:])
+				rkey := key(op[1])
+				n := verifh.Atoi(c06Opt(op, "n", "4"))
+				var via []int
+				for _, t := range strings.Split(c06Opt(op, "i", "0"), "+") {
+					i := verifh.Atoi(t)
+					if i < 0 || i >= len(ccs) {
+						panic("bad i= in op: " + strings.Join(op, " "))
+					}
+					via = append(via, i)
+				}
+				ncls := map[string]bool{}
+				for _, i := range via {
+					ncls[classes[i]] = true
+				}
+				var mu sync.Mutex
+				inflight, maxInflight := map[string]int{}, 0
+				total, started := 0, 0
+				results := make([]string, n)
+				hold := func(cls string) func() {
+					mu.Lock()
+					inflight[cls]++
+					total++
+					if inflight[cls] > maxInflight {
+						maxInflight = inflight[cls]
+					}
+					mu.Unlock()
+					for k := 0; k < 2000; k++ {
+						mu.Lock()
+						all := started == n
+						mu.Unlock()
+						if all {
+							break
+						}
+						time.Sleep(50 * time.Microsecond)
+					}
+					time.Sleep(300 * time.Microsecond)
+					return func() {
+						mu.Lock()
+						inflight[cls]--
+						mu.Unlock()
+					}
+				}
+				var wg sync.WaitGroup
+				for i := 0; i < n; i++ {
+					wg.Add(1)
+					go func(i int) {
+						defer wg.Done()
+						defer func() {
+							if p := recover(); p != nil {
+								results[i] = c06Panic(p)
+							}
+						}()
+						rc, cls := ccs[via[i%len(via)]], classes[via[i%len(via)]]
+						mu.Lock()
+						started++
+						mu.Unlock()
+						var v c06Row
+						err := rc.QueryRowIndexCtx(ctx, &v, rkey, keyer,
+							func(ctx context.Context, conn sqlx.SqlConn, v any) (any, error) {
+								defer hold(cls)()
+								if dbfail {
+									return nil, errC06DB
+								}
+								pk, ok := idx[a]
+								if !ok {
+									return nil, notFound
+								}
+								r, ok := rows[pk]
+								if !ok {
+									return nil, notFound
+								}
+								*v.(*c06Row) = c06Row{r.Id + pkB, r.V, r.A}
+								return pk + pkB, nil
+							},
+							func(ctx context.Context, conn sqlx.SqlConn, v, primary any) error {
+								defer hold(cls)()
+								if dbfail {
+									return errC06DB
+								}
+								pk, bad := pkOf(primary)
+								if bad != "" {
+									kmu.Lock()
+									badPK = bad
+									kmu.Unlock()
+								}
+								r, ok := rows[pk]
+								if !ok {
+									return notFound
+								}
+								*v.(*c06Row) = c06Row{r.Id + pkB, r.V, r.A}
+								return nil
+							})
+						r := isNF(c06Err(err), err)
+						if err == nil {
+							r = fmt.Sprintf("val:r:%d:%d:%d", v.Id-pkB, v.V, v.A)
+						}
+						results[i] = r
+					}(i)
+				}
+				first := ""
+				if !c06Join(&wg) {
+					first = "PANIC:readers-did-not-return"
+				} else {
+					first = results[0]
+				}
+				distinct := map[string]bool{}
+				for _, r := range results {
+					distinct[r] = true
+					if strings.HasPrefix(r, "PANIC") && !strings.HasPrefix(first, "PANIC") {
+						first = r
+					}
+				}
+				kmu.Lock()
+				if badPK != "" {
+					first, badPK = "err:primary-key-decoded-as-"+c06Panic(badPK)[6:], ""
+				}
+				kmu.Unlock()
+				qs := strconv.Itoa(total)
+				if dbfail && total >= 1 && total <= 2*n {
+					qs = "ok"
+				} else if !dbfail && len(ncls) > 1 && total >= 1 && total <= len(ncls) {
+					qs = "ok"
+				}
+				cleaner.Sync()
+				return fmt.Sprintf("%s q=%s cmds=- inflight=%d distinct=%d | %s", first, qs, maxInflight, len(distinct), dump())
 			case "qindex":
 				a := verifh.Atoi(op[1][1:])
 				var v c06Row
@@ -658,8 +857,8 @@ func TestVerifC06(t *testing.T) {
 						if !ok {
 							return nil, notFound
 						}
-						*v.(*c06Row) = r
-						return pk, nil
+						*v.(*c06Row) = c06Row{r.Id + pkB, r.V, r.A}
+						return pk + pkB, nil
 					}
 				pq := func(ctx context.Context, conn sqlx.SqlConn, v, primary any) error {
 						queries++
@@ -667,26 +866,17 @@ func TestVerifC06(t *testing.T) {
 						if dbfail {
 							return errC06DB
 						}
-						var pk int
-						switch p := primary.(type) {
-						case float64:
-							pk = int(p)
-						case int:
-							pk = p
-						case json.Number:
-							n, err := p.Int64()
-							if err != nil {
-								panic(err)
-							}
-							pk = int(n)
-						default:
-							panic(fmt.Sprintf("primary key of type %T", primary))
+						pk, bad := pkOf(primary)
+						if bad != "" {
+							kmu.Lock()
+							badPK = bad
+							kmu.Unlock()
 						}
 						r, ok := rows[pk]
 						if !ok {
 							return notFound
 						}
-						*v.(*c06Row) = r
+						*v.(*c06Row) = c06Row{r.Id + pkB, r.V, r.A}
 						return nil
 					}
 				var err error
@@ -701,7 +891,10 @@ func TestVerifC06(t *testing.T) {
 				}
 				res = isNF(c06Err(err), err)
 				if err == nil {
-					res = fmt.Sprintf("val:r:%d:%d:%d", v.Id, v.V, v.A)
+					res = fmt.Sprintf("val:r:%d:%d:%d", v.Id-pkB, v.V, v.A)
+				}
+				if badPK != "" {
+					res, badPK = "err:primary-key-decoded-as-"+c06Panic(badPK)[6:], ""
 				}
 			case "get":
 				if op[1][0] == 'p' {
@@ -714,7 +907,7 @@ func TestVerifC06(t *testing.T) {
 					}
 					res = isNF(c06Err(err), err)
 					if err == nil {
-						res = fmt.Sprintf("val:r:%d:%d:%d", v.Id, v.V, v.A)
+						res = fmt.Sprintf("val:r:%d:%d:%d", v.Id-pkB, v.V, v.A)
 					}
 				} else {
 					var v any
@@ -731,6 +924,9 @@ func TestVerifC06(t *testing.T) {
 							res = fmt.Sprintf("err:index-entry-type-%T", v)
 						} else {
 							res = "val:k:" + f.String()
+							if n, err := f.Int64(); err == nil && pkB != 0 {
+								res = "val:k:" + strconv.FormatInt(n-int64(pkB), 10)
+							}
 						}
 					}
 				}
@@ -781,6 +977,7 @@ func TestVerifC06(t *testing.T) {
 				}
 			case "set":
 				v, _ := c06Val(op[2])
+				v = c06Up(v, pkB)
 				if nc {
 					res = c06Err(cc.SetCache(key(op[1]), v))
 				} else {
@@ -788,6 +985,7 @@ func TestVerifC06(t *testing.T) {
 				}
 			case "setx":
 				v, _ := c06Val(op[2])
+				v = c06Up(v, pkB)
 				if nc {
 					res = c06Err(cc.SetCacheWithExpire(key(op[1]), v, time.Duration(verifh.Atoi64(op[3]))*time.Millisecond))
 				} else {
@@ -1012,8 +1210,8 @@ var c06NXScenario = verifh.Section{Cfg: "exp=20000 nf=3000 stale=report nodes=1 
 // NewNodeConn run one query (`inflight=1`), while an instance with a private barrier (NewConnWithCache) loads
 // on its own.
 var c06InstanceScenarios = []verifh.Section{
-	{Cfg: "inst=conn/20000/3000,node/20000/3000,node/-/0,wc0/7000/1000,wc0/20000/3000,wc1/20000/3000 stale=report nodes=1 type=node place=-", Ops: []string{
-		"insts", "exec p1,x1 put:1:10:1 i=1", "take p1 j=500 i=0", "take p1 i=1", "take p1 i=3", "qindex x1 i=2 j=0", "qindex x1 i=4",
+	{Cfg: "inst=conn/20000/3000,node/20000/3000,node/-/0,wc0/7000/1000,wc0/20000/3000,wc1/20000/3000 stale=report nodes=1 type=node place=- pkbase=1000000", Ops: []string{
+		"insts", "exec p6,x6 put:6:60:6", "cqindex x6 n=5 i=0+1", "qindex x6 i=2", "cqindex x6 n=4 i=1", "exec p6,x6 put:6:61:6 i=1", "cqindex x6 n=6 i=0+1+2 j=0", "qindex x6", "take p6", "del p6", "cqindex x6 n=4", "cqindex x7 n=3", "del p6,x6,x7", "exec p1,x1 put:1:10:1 i=1", "take p1 j=500 i=0", "take p1 i=1", "take p1 i=3", "qindex x1 i=2 j=0", "qindex x1 i=4",
 		"exec p1,x1 put:1:11:1 i=5", "take p1 i=2 j=1000", "take p1 i=0", "take p2 i=3 j=0", "take p2 i=0", "take p3 i=2 j=1000", "take p3 i=1",
 		"exec p1,x1 put:1:12:1 c=1 i=1", "exec p2 put:2:20:2 c=1 i=3", "tick 1 c=0", "take p1 i=4", "take p2 i=5",
 		"del p1,p2,p3 i=2", "ctake p1 n=4 i=0+1", "del p1 i=0", "ctake p1 n=6 i=0+1+2 j=0", "del p1", "ctake p1 n=5 i=1+2 db=1",
@@ -1026,8 +1224,8 @@ var c06InstanceScenarios = []verifh.Section{
 		"del p1,p2,p3", "cmix p1+p2 n=6 chain=1 gmp=1 db=1 i=0+1", "cmix p1+p2 n=4 chain=1 gmp=0 i=3+4", "del p1,p2", "cmix p1+p2 n=6 chain=1 gmp=1 i=0+3+5",
 		"del p1,p2,p3", "cmix p3 n=3 chain=0 gmp=1 w=1 i=0", "cmix p1 n=2 chain=1 gmp=1 i=0",
 	}},
-	{Cfg: "inst=conn/20000/3000,conn/-/-,wc0/1/1,conn/0/-1 stale=report nodes=3 type=cluster place=p1:0,x1:1,p2:2,x2:0", Ops: []string{
-		"insts", "exec p1,x1 put:1:10:1 i=1", "exec p2,x2 put:2:20:2 i=2", "qindex x1 i=0 j=500", "qindex x2 i=1 j=0", "take p1 i=2", "take p2 i=3",
+	{Cfg: "inst=conn/20000/3000,conn/-/-,wc0/1/1,conn/0/-1 stale=report nodes=3 type=cluster place=p1:0,x1:1,p2:2,x2:0 pkbase=9007199254740993", Ops: []string{
+		"insts", "exec p6,x6 put:6:60:6", "cqindex x6 n=5 i=0+1", "qindex x6 i=3", "exec p6,x6 put:6:61:6 i=1", "cqindex x6 n=6 i=0+1+3", "get x6", "get p6", "del p6,x6", "exec p1,x1 put:1:10:1 i=1", "exec p2,x2 put:2:20:2 i=2", "qindex x1 i=0 j=500", "qindex x2 i=1 j=0", "take p1 i=2", "take p2 i=3",
 		"exec p1,x1,p2,x2 put:1:11:2 c=1/0/1 i=3", "take p1 i=0", "qindex x2 i=1", "tick 1 c=000", "take p2 i=2 j=1000", "qindex x2 i=0",
 		"del p1,p2 i=2", "ctake p1 n=6 i=0+1+3", "ctake p2 n=4 i=1+2", "take p3 i=2 j=0", "take p3 i=3",
 		"del p1,p2,p3 i=0", "cmix p1+p2+p3 n=7 chain=1 gmp=1 i=0+1+3", "del p1,p2", "cmix p2+p1 n=4 chain=1 gmp=0 i=0+2 j=0",
@@ -1174,7 +1372,15 @@ func c06Gen(r *verifh.Rng) []verifh.Section {
 					lc = " lctx=1"
 				}
 				ops = append(ops, fmt.Sprintf("ctake p%d n=%d%s%s%s", pkey(), r.Range(2, 6), c06J(r), c06DBFault(r), lc)+ivs())
-			case x < 47:
+			case x < 45:
+				// (through ONE instance: with several barrier classes each class leads once and the two entries of the
+				// index path may come from different leaders — last writer wins per entry —, which the model does not enumerate)
+				one := ""
+				if ni > 1 {
+					one = fmt.Sprintf(" i=%d", r.Intn(ni))
+				}
+				ops = append(ops, fmt.Sprintf("cqindex x%d n=%d%s", pkey(), r.Range(2, 6), c06J(r))+one)
+			case x < 49:
 				// concurrent readers of several keys, chained second reads, one P / many Ps
 				pool := r.Range(1, nk+1)
 				var ks []string
@@ -1273,7 +1479,8 @@ func c06Gen(r *verifh.Rng) []verifh.Section {
 				ops = append(ops, fmt.Sprintf("tick %d c=%s", nt, downBits()))
 			}
 		}
-		secs = append(secs, verifh.Section{Cfg: fmt.Sprintf("inst=%s stale=report nodes=%d type=%s place=%s", inst, nodes, typ, place), Ops: ops})
+		secs = append(secs, verifh.Section{Cfg: fmt.Sprintf("inst=%s stale=report nodes=%d type=%s place=%s pkbase=%s", inst, nodes, typ, place,
+			[]string{"0", "1000000", "9007199254740993", "4611686018427387000"}[i%4]), Ops: ops})
 	}
 	return secs
 }
